@@ -679,13 +679,15 @@ def check_fourier(case, rec):
     # the generated direction (truncation = tail mass beyond k_max, periodisation = sum of shifted covariances:
     # both shrink when k_max doubles and the period doubles).
     fr = np.array([0.0, 0.2, 0.4, 0.6, 0.8, 1.0])
-    cm = model.covariance(fr * np.linalg.norm(d_iso))
+    ls_ = float(model.len_rescaled)
+    d_ref = d_iso if np.linalg.norm(d_iso) >= 0.2 * ls_ else ls_ * np.array([0.9, 0.45, 0.3])[:dim]  # (a zero lag would be a single point)
+    cm = model.covariance(fr * np.linalg.norm(d_ref))
     errs = []
     for fm, fp in ((1, 1.0), (2, 1.0), (4, 2.0)):
         K2, dk2 = _fourier_grid(spec, [p * fp for p in case["period"]], [m * fm for m in case["modes"]])
         with quiet():
             w2 = model.spectrum(np.linalg.norm(K2, axis=0)) * np.prod(dk2)
-        ph = K2.T @ d_iso
+        ph = K2.T @ d_ref
         errs.append(float(np.max(np.abs(np.array([np.sum(w2 * np.cos(f * ph)) for f in fr]) - cm))))
     rec.discrepancy("fourier_discretisation", errs[-1], 0.02 * spec["var"])
     require(
